@@ -20,15 +20,15 @@ import (
 // C02 — rendering is faithful: static content and values survive an HTML round trip.
 
 type c02Case struct {
-	Part   string `json:"part"`             // static | corpus | value | vhtml
-	Src    string `json:"src,omitempty"`    // template source
-	Doc    bool   `json:"doc,omitempty"`    // full document (file entry points only)
-	File   string `json:"file,omitempty"`   // corpus: path under /repo
-	Sink   string `json:"sink,omitempty"`   // value part: text | attr | bound
-	Nbh    string `json:"nbh,omitempty"`    // value part
-	Val    *TV    `json:"val,omitempty"`    // value part
-	HTML   string `json:"html,omitempty"`   // vhtml part
-	Wrap   string `json:"wrap,omitempty"`   // vhtml part: element name
+	Part string `json:"part"`           // static | corpus | value | vhtml
+	Src  string `json:"src,omitempty"`  // template source
+	Doc  bool   `json:"doc,omitempty"`  // full document (file entry points only)
+	File string `json:"file,omitempty"` // corpus: path under /repo
+	Sink string `json:"sink,omitempty"` // value part: text | attr | bound
+	Nbh  string `json:"nbh,omitempty"`  // value part
+	Val  *TV    `json:"val,omitempty"`  // value part
+	HTML string `json:"html,omitempty"` // vhtml part
+	Wrap string `json:"wrap,omitempty"` // vhtml part: element name
 }
 
 type c02 struct{ corpus []string }
